@@ -187,4 +187,18 @@ pub fn run(ctx: &mut Ctx) {
             }
         }
     }
+    // wide values: more than 128 siblings at one level
+    let n = ctx.n(60, 1_000);
+    for i in 0..n {
+        if !ctx.begin("wide", i) {
+            continue;
+        }
+        let mut rng = ctx.case_rng("wide", i);
+        let m = crate::gen::gen_wide(&mut rng);
+        ctx.eval("wide", m.fp(), true);
+        let (enc, dec) = ((i % 3) as u8, ((i / 3) % 3) as u8);
+        if let Err(f) = json_roundtrip(&m, 0, enc, dec) {
+            report(ctx, &m, 0, enc, dec, f);
+        }
+    }
 }
